@@ -101,7 +101,8 @@ def batches(rng, tier):
         for cnt in range(0, 9):
             ops.append(f"readchars s:{s} {cnt}")
         ops.append(f"streamtostring s:{s}")
-    ops += [f"filesize {k}" for k in ("file0", "file5", "file4096", "dir", "missing", "dangling", "symfile", "dot", "emptypath")]
+    ops += [f"filesize {k}" for k in ("file0", "file5", "file4096", "dir", "missing", "dangling", "symfile", "dot", "emptypath",
+                                            "symsym", "selfloop", "loopa", "loopb", "symdir", "fifo", "longname", "underfile", "underloop", "longpath")]
     ops += [f"rmext s:{w}" for w in words("a./", 5)]
     for ty in ("int", "uint", "short", "ulong", "string"):
         ops += [f"extract {ty} s:{w}" for w in words("1-+ a", 3)] + [f"extract {ty} s:{w}" for w in ("99999999999999999999", "-99999999999999999999", "2147483648", "-2147483649", "65536", "0x10", "1e3")]
